@@ -24,7 +24,9 @@ RULE = ("(a) EXHAUSTIVE: every one of the 10^6 sub-second microsecond values (x 
         "properties survive read -> defragment -> read bit-exactly in both byte orders. (d) waveform channels of length "
         "0,1,n: time_track() has len(channel) points, starts at wf_start_offset, is spaced by wf_increment, and its "
         "absolute form is wf_start_time plus those offsets. Non-trivial: microsecond value not a multiple of 1000, "
-        "fractions within 2^18 of a unit boundary, or a track of length >= 2.")
+        "fractions within 2^18 of a unit boundary, or a track of length >= 2."
+        " A further job writes datetime64[us] values from the whole representable range (incl. the ends of Python's "
+        'datetime range) as channel data and properties through a file.')
 ASSUMPTIONS = [
     "exact time = 1904-01-01 + seconds + fractions/2^64 as a Fraction",
     "'within one unit' is checked as <= (1 + 1e-6) units: float64 evaluation may overshoot a unit by ~1e-10 units",
